@@ -27,12 +27,13 @@ struct TCase {
     tg::Tissue tissue;
     double lmin_f = 0.5, cut_rep_f = 0.3, cut_adh_f = 0.3;
     int normals_state = 1, lone = 0;
+    int threads = 1;         // the whole-tissue clauses hold whatever the order in which the threads accumulate the contact forces
     unsigned keep_mask = 0;  // != 0: after the first run the cells whose bit is clear are removed (the way the solver removes cells)
                              // and the SAME model instance runs again on the remaining population
     void write(vf::Writer& w) const {
         tissue.write(w);
         w.d(lmin_f), w.d(cut_rep_f), w.d(cut_adh_f), w.i(normals_state), w.i(lone);
-        w.u(keep_mask);
+        w.u(keep_mask), w.i(threads);
         w.nl();
     }
     static TCase read(vf::Reader& r) {
@@ -40,6 +41,7 @@ struct TCase {
         c.tissue = tg::Tissue::read(r);
         c.lmin_f = r.d(), c.cut_rep_f = r.d(), c.cut_adh_f = r.d(), c.normals_state = (int)r.i(), c.lone = (int)r.i();
         if (r.more()) c.keep_mask = (unsigned)r.u();
+        if (r.more()) c.threads = (int)r.i();
         return c;
     }
 };
@@ -54,13 +56,14 @@ static rc::Gen<TCase> genT() {
         c.normals_state = *irange(0, 2) != 0;
         c.lone = *irange(0, 9) == 0;
         // half of the cases continue with a second run of the same model on a shrunk population (1 cell left, or a random subset)
+        c.threads = *rc::gen::element(1, 1, 1, 2, 3, 8);
         if (*irange(0, 1)) c.keep_mask = *irange(0, 2) == 0 ? (1u << *irange(0, 4)) : (unsigned)*irange(1, 127);
         return c;
     });
 }
 
 static std::string runT(const TCase& k, vf::Ctx& ctx) {
-    omp_set_num_threads(1);
+    omp_set_num_threads(std::max(1, k.threads));
     ct::CellScope scope;
     tg::Tissue tis = k.tissue;
     if (k.lone) tis.cells.resize(1);
@@ -186,6 +189,7 @@ static std::string runT(const TCase& k, vf::Ctx& ctx) {
     ctx.count(n_forced ? "tissue_with_forces" : "tissue_without_forces");
     if (n_coupled) ctx.count("tissue_with_couplings");
     if (b.cells.size() == 1) ctx.count("lone_cell");
+    if (k.threads > 1 && (n_forced || n_coupled)) ctx.count("contacts_computed_by_several_threads");
     if (n_forced || n_coupled) {
         ctx.nontriv();
         std::ostringstream s2;
